@@ -1102,6 +1102,97 @@ fn package(c: &Case, class: String, detail: String, entropy_seed: u64) -> Violat
     }
 }
 
+/// Shrink a failing fault case: keep only what the faulted entry (and, for nested sites, one
+/// owner that reaches it) refers to. `retain()` renumbers ids, the fault descriptor follows.
+fn shrink_fault_case(c: &Case, class: &str, entropy_seed: u64) -> Option<(Case, String)> {
+    let fault = c.fault.as_ref()?;
+    let entry = match fault {
+        Fault::IdMismatch { entry, .. } | Fault::MixedFields { entry, .. } => *entry,
+        Fault::Dangling { site, .. } => site.entry(),
+        Fault::NoCompactPath | Fault::NoBitsPath => return None,
+    };
+    let reg = &*c.reg;
+    // candidate root sets: the entry alone; the entry plus each named type that refers to it
+    let mut candidates: Vec<Vec<u32>> = vec![vec![entry]];
+    for (i, t) in reg.types.iter().enumerate() {
+        if refmodel::is_generated_kind(&t.ty) && i as u32 != entry {
+            let r = refmodel::reach(reg, i as u32);
+            if r.with_params.contains(&entry) {
+                candidates.push(vec![i as u32, entry]);
+            }
+        }
+        if candidates.len() > 40 {
+            break;
+        }
+    }
+    let mut best: Option<(Case, String)> = None;
+    for roots in candidates {
+        let mut r2 = reg.clone();
+        let keep: BTreeSet<u32> = roots.iter().copied().collect();
+        let map = r2.retain(|id| keep.contains(&id));
+        let Some(new_entry) = map.get(&entry).copied() else { continue };
+        let n2 = r2.types.len() as u32;
+        let cur = best.as_ref().map(|b| b.0.reg.types.len()).unwrap_or(reg.types.len());
+        if r2.types.len() >= cur {
+            continue;
+        }
+        let f2 = match fault {
+            Fault::IdMismatch { given, .. } => {
+                // keep the relation between position and wrong id
+                let g = if *given == u32::MAX || *given == 0 {
+                    *given
+                } else if *given > entry {
+                    new_entry + 1
+                } else {
+                    new_entry.saturating_sub(1)
+                };
+                if g == new_entry {
+                    continue;
+                }
+                Fault::IdMismatch { entry: new_entry, given: g }
+            }
+            Fault::MixedFields { variant, field, .. } => Fault::MixedFields {
+                entry: new_entry,
+                variant: *variant,
+                field: *field,
+            },
+            Fault::Dangling { site, id } => {
+                let s2 = match site {
+                    Site::Field { variant, field, .. } => Site::Field {
+                        entry: new_entry,
+                        variant: *variant,
+                        field: *field,
+                    },
+                    Site::Param { idx, .. } => Site::Param { entry: new_entry, idx: *idx },
+                    Site::Elem { .. } => Site::Elem { entry: new_entry },
+                    Site::TupleElem { idx, .. } => Site::TupleElem { entry: new_entry, idx: *idx },
+                    Site::BitStore { .. } => Site::BitStore { entry: new_entry },
+                    Site::BitOrder { .. } => Site::BitOrder { entry: new_entry },
+                };
+                Fault::Dangling {
+                    site: s2,
+                    id: if *id == u32::MAX { *id } else { (*id).max(n2) },
+                }
+            }
+            _ => continue,
+        };
+        let cand = Case {
+            reg_name: format!("{} (slice around the faulted entry)", c.reg_name),
+            reg: Arc::new(r2),
+            sw: c.sw.clone(),
+            ops: c.ops.clone(),
+            fault: Some(f2),
+        };
+        let r = run_case(&cand, entropy_seed);
+        if let Some((cl, d)) = judge(&cand, &r) {
+            if cl == class {
+                best = Some((cand, d));
+            }
+        }
+    }
+    best
+}
+
 /// Shrink a failing fault-free case: fewer ops, then a one-root slice of the registry.
 fn minimise(c: &Case, class: &str, entropy_seed: u64) -> (Case, String) {
     let mut best = c.clone();
@@ -1458,10 +1549,13 @@ pub fn check(ctx: &Ctx) -> i32 {
             }
             let c = &fault_cases[rep.case_idx];
             let seed = mix(ctx.seed, tag("C10-f-entropy"), rep.case_idx as u64);
-            let v = package(c, class.clone(), detail.clone(), seed);
             // one report per (base, fault kind, class): the same defect shows at many sites
             let group = format!("{}|{}|{}", c.reg_name, rep.kind, class);
             if seen_keys.insert(group) && violations.len() < 8 {
+                let v = match shrink_fault_case(c, class, seed) {
+                    Some((small, d)) => package(&small, class.clone(), d, seed),
+                    None => package(c, class.clone(), detail.clone(), seed),
+                };
                 violations.push(v);
             }
         }
